@@ -1209,6 +1209,17 @@ pub fn mutate_frag(rng: &mut Rng, f: &mut Frag, fresh_key: KeyRef) -> Option<&'s
                     std::mem::swap(a, b);
                     Some("children swapped")
                 }
+                Frag::AndOr(_, b, c) if choice == 4 || choice == 5 => {
+                    // the else branches of two nested andor nodes trade places (the and_n sugar moves
+                    // from one to the other; the other nodes keep their pre-order sequence)
+                    if let Frag::AndOr(_, _, c2) = &mut **b {
+                        std::mem::swap(c, c2);
+                        Some("andor else-branches traded between outer and inner")
+                    } else {
+                        std::mem::swap(b, c);
+                        Some("andor branches swapped")
+                    }
+                }
                 Frag::OrI(a, b) if choice == 6 => {
                     // sugar re-spelling candidates: or_i(X,0) <-> or_i(0,X)
                     if **b == Frag::False || **a == Frag::False {
